@@ -6,11 +6,11 @@ CONSTANTS
   Brokers = {"r1", "r2", "r3"}
   ConsumerSet = {"c1", "c2"}
   Coords = {"A", "X"}
-  OpKinds = {"CreateStream", "DeleteStream", "CreateGroup", "JoinGroup", "LeaveGroup", "ChangeCoordinator"}
+  OpKinds = {"CreateStream", "DeleteStream", "Pause", "Resume"}
   MaxOps = 4
   MaxSnaps = 1
   MaxRestarts = 1
 INVARIANTS NoTombLive GroupsFine EpochsFine FlagsConsistent
-PROPERTIES A_RS_Streams A_RS_RoEff A_RS_GroupMembers A_NoDataLoss A_NoResurrection A_NoApplyError A_RS_StartedByFinish
+PROPERTIES A_RS_Started
 VIEW MCView
 CHECK_DEADLOCK FALSE
